@@ -138,8 +138,13 @@ class _StatePointDict(JSONAttrDict):
                 os.replace(tmp_statepoint_file, self.filename)  # rollback
                 # The job was not moved, so the in-memory state point must
                 # not keep the rejected modification either.
+                previous_statepoint = job._cached_statepoint
+                if previous_statepoint is None:
+                    # The job was opened by id and its state point was never
+                    # loaded: read it from the restored file.
+                    previous_statepoint = self._load_from_resource()
                 with self._suspend_sync:
-                    self._update(job._cached_statepoint)
+                    self._update(previous_statepoint)
                 if error.errno in (errno.EEXIST, errno.ENOTEMPTY, errno.EACCES):
                     raise DestinationExistsError(new_id)
                 else:
